@@ -6,6 +6,8 @@ pub mod syntax;
 pub mod refsem;
 pub mod pipeline;
 pub mod explore;
+pub mod cli;
+pub mod universes;
 pub mod props;
 
 use explore::{Ctx, Tier};
